@@ -3,7 +3,7 @@
     No Extract Constant / Extract Inductive directive of our own. *)
 Require Extraction.
 Require Import ExtrOcamlBasic.
-From ZV Require Import Base.Bytes Base.Res Spec.Rfc23 Model.Codec Spec.Stream Spec.Compat Model.Handshake.
+From ZV Require Import Base.Bytes Base.Res Spec.Rfc23 Model.Codec Spec.Stream Spec.Compat Model.Handshake Model.World.
 Extraction Language OCaml.
 Separate Extraction
   Bytes.be Bytes.of_be Bytes.lenN Bytes.is_prefix
@@ -12,4 +12,5 @@ Separate Extraction
   Codec.encode_msg Codec.frame_hdr Codec.encode_greeting Codec.default_greeting Codec.encode_ready
   Codec.ready_props Codec.stype_of_name Codec.lib_items Codec.lib_reader Codec.held Codec.all_stypes
   Stream.spec_items
-  Handshake.handshake_verdict Handshake.compatible Compat.rfc_compat Codec.stype_idx Codec.stype_name.
+  Handshake.handshake_verdict Handshake.compatible Compat.rfc_compat Codec.stype_idx Codec.stype_name
+  World.world0 World.step World.rep_split World.req_unwrap World.req_wrap World.rep_wrap World.on_sub_msg World.matches.
